@@ -161,6 +161,9 @@ pub struct Sim {
     pub voter_campaign_only: bool,
     /// no membership change is ever proposed (P-level traces then cover the whole run)
     pub fixed_conf: bool,
+    /// run profile (pointwise tie coverage): 0 none, 1 flow control, 2 transfer + membership,
+    /// 3 snapshots, 4 reads: a quarter of the random events come from the profile's own list
+    pub focus: u8,
     pub pt: crate::ptrace::PTrace,
 }
 
@@ -196,7 +199,7 @@ pub fn call_kind(c: &Call) -> &'static str {
 
 impl Sim {
     pub fn new(seed: u64, rec: Recorder) -> Sim {
-        Sim { nodes: vec![], net: vec![], rng: Rng::new(seed), rec, next_payload: 1, archive: vec![], max_log: 12, trace: vec![], keep_trace: false, trace_tail: 60, run_id: seed, trace_len: 0, mon: None, halted: false, quiet: false, extra_steps: false, adversarial: false, force_prevote_cq: false, force_sim_snap: false, voter_campaign_only: false, fixed_conf: false, pt: Default::default() }
+        Sim { nodes: vec![], net: vec![], rng: Rng::new(seed), rec, next_payload: 1, archive: vec![], max_log: 12, trace: vec![], keep_trace: false, trace_tail: 60, run_id: seed, trace_len: 0, mon: None, halted: false, quiet: false, extra_steps: false, adversarial: false, force_prevote_cq: false, force_sim_snap: false, voter_campaign_only: false, fixed_conf: false, focus: 0, pt: Default::default() }
     }
 
     /// Random cluster shape and per-node configuration.
@@ -874,11 +877,32 @@ impl Sim {
     }
 
     pub fn step_random(&mut self) {
-        if self.adversarial && self.rng.chance(1, 10) {
-            let i = self.rng.below(self.nodes.len() as u64) as usize;
-            if let Some(m) = self.adversarial_msg(i) {
-                self.call(i, Call::Step(m));
+        if self.adversarial && self.rng.chance(1, 8) {
+            let nn = self.nodes.len() as u64;
+            let i = self.rng.below(nn) as usize;
+            match self.rng.below(5) {
+                0 => {
+                    // a membership change applied out of the blue (not from the log), on the leader mostly
+                    let t = self.leader().filter(|_| self.rng.chance(2, 3)).unwrap_or(i);
+                    let n = 1 + self.rng.below(2);
+                    let changes: Vec<(u64, u64)> = (0..n).map(|_| (self.rng.below(3), 1 + self.rng.below(nn + 1))).collect();
+                    let cc = cc_v2(self.rng.below(3), if self.rng.chance(1, 8) { &[] } else { &changes });
+                    if self.rng.chance(1, 3) {
+                        let peer = changes[0].1;
+                        self.call(t, Call::TransferLeader(peer));
+                    }
+                    self.call(t, Call::ApplyConfChange(cc));
+                }
+                _ => {
+                    if let Some(m) = self.adversarial_msg(i) {
+                        self.call(i, Call::Step(m));
+                    }
+                }
             }
+            return;
+        }
+        if self.focus != 0 && self.rng.chance(1, 4) {
+            self.focus_event();
             return;
         }
         if self.extra_steps && self.rng.chance(1, 40) {
@@ -1024,6 +1048,120 @@ impl Sim {
                     _ => Call::MaybeFreeInflight,
                 };
                 self.call(i, c);
+            }
+        }
+    }
+
+    /// One event of the run's profile (see `focus`): the rare operations of one area, aimed at the
+    /// leader where that is where they matter.
+    fn focus_event(&mut self) {
+        let nn = self.nodes.len() as u64;
+        let any = self.rng.below(nn) as usize;
+        let l = self.leader().unwrap_or(any);
+        let peer = 1 + self.rng.below(nn + 1);
+        match self.focus {
+            1 => match self.rng.below(8) {
+                0 | 1 => {
+                    let cap = self.rng.below(4);
+                    self.call(l, Call::AdjustInflight(peer, cap));
+                }
+                2 => {
+                    self.call(l, Call::ReportUnreachable(peer));
+                }
+                3 => {
+                    let ok = self.rng.chance(1, 2);
+                    self.call(l, Call::ReportSnapshot(peer, ok));
+                }
+                4 => {
+                    let b = self.rng.chance(1, 2);
+                    self.call(l, Call::SetBatchAppend(b));
+                }
+                5 => {
+                    self.call(l, Call::MaybeFreeInflight);
+                }
+                _ => {
+                    for _ in 0..(1 + self.rng.below(4)) {
+                        let p = self.payload();
+                        self.call(l, Call::Propose(vec![], p));
+                    }
+                }
+            },
+            2 => match self.rng.below(6) {
+                0 | 1 => {
+                    let t = if self.rng.chance(3, 4) { l } else { any };
+                    self.call(t, Call::TransferLeader(peer));
+                }
+                2 | 3 if !self.fixed_conf => {
+                    // demote / promote / remove one concrete node, simple or joint
+                    let ty = self.rng.below(3);
+                    let cc = if self.rng.chance(1, 2) {
+                        let mut c = ConfChange::default();
+                        c.set_change_type(match ty {
+                            0 => ConfChangeType::AddNode,
+                            1 => ConfChangeType::RemoveNode,
+                            _ => ConfChangeType::AddLearnerNode,
+                        });
+                        c.node_id = peer;
+                        CcKind::V1(c)
+                    } else {
+                        CcKind::V2(cc_v2(self.rng.below(3), &[(ty, peer)]))
+                    };
+                    self.call(l, Call::ProposeConfChange(vec![], cc));
+                }
+                4 => {
+                    // lose a message (keeps transfers and changes pending)
+                    if !self.net.is_empty() {
+                        let k = self.rng.below(self.net.len() as u64) as usize;
+                        self.net.remove(k);
+                    }
+                }
+                _ if !self.fixed_conf => {
+                    // a membership change touching a node, then at once a transfer to that node:
+                    // the change is applied while the transfer is pending
+                    let ty = *self.rng.pick(&[1u64, 2, 2]);
+                    let cc = if self.rng.chance(1, 2) {
+                        let mut c = ConfChange::default();
+                        c.set_change_type(if ty == 1 { ConfChangeType::RemoveNode } else { ConfChangeType::AddLearnerNode });
+                        c.node_id = peer;
+                        CcKind::V1(c)
+                    } else {
+                        CcKind::V2(cc_v2(self.rng.below(3), &[(ty, peer)]))
+                    };
+                    self.call(l, Call::ProposeConfChange(vec![], cc));
+                    self.call(l, Call::TransferLeader(peer));
+                }
+                _ => {
+                    self.call(l, Call::Tick);
+                }
+            },
+            3 => match self.rng.below(6) {
+                0 | 1 => self.compact(any),
+                2 => {
+                    self.call(any, Call::RequestSnapshot);
+                }
+                3 => {
+                    let snaps: Vec<usize> = (0..self.archive.len()).filter(|&j| self.archive[j].get_msg_type() == MessageType::MsgSnapshot).collect();
+                    if !snaps.is_empty() {
+                        let m = self.archive[*self.rng.pick(&snaps)].clone();
+                        if let Some(i) = self.idx_of(m.to) {
+                            self.call(i, Call::Step(m));
+                        }
+                    }
+                }
+                4 => {
+                    let ok = self.rng.chance(2, 3);
+                    self.call(l, Call::ReportSnapshot(peer, ok));
+                }
+                _ => {
+                    let p = self.payload();
+                    self.call(l, Call::Propose(vec![], p));
+                }
+            },
+            _ => {
+                let ctx = if self.rng.chance(1, 6) { vec![1, 1, 2] } else { vec![(self.next_payload % 250) as u8, 1, 2] };
+                self.next_payload += 1;
+                let t = if self.rng.chance(1, 2) { l } else { any };
+                self.call(t, Call::ReadIndex(ctx));
             }
         }
     }
